@@ -572,7 +572,7 @@ def check_cell(cls, pos, term_name, inner, par):
 def ddl_cases():
     for cls in CTXS:
         for name in ("create_columns", "create_as_select", "create_temporary_unique", "drop", "drop_if_exists", "drop_schema_table",
-                     "table_factory_select", "tables_factory_select", "tables_factory_update", "tables_factory_insert"):
+                     "table_factory_select", "tables_factory_select", "tables_factory_update", "tables_factory_insert", "create_default_interval"):
             yield {"mode": "ddl", "cls": cls, "name": name}
 
 
@@ -587,6 +587,8 @@ def build_ddl(cls, name):
         return Q.create_table("n").as_select(Q.from_(t).select(t.a, t.b).where(t.a == "v"))
     if name == "create_temporary_unique":
         return Q.create_table("n").temporary().if_not_exists().columns(P.Column("a", "INT"), P.Column("b", "INT")).unique("a", "b")
+    if name == "create_default_interval":
+        return Q.create_table("n").columns(P.Column("ttl", "INTERVAL", default=P.Interval(days=2, hours=3)))
     if name == "drop":
         return Q.drop_table("Na me")
     if name == "drop_if_exists":
@@ -622,6 +624,16 @@ def check_ddl(case):
         if text != sql:
             out.append((mksig("ddl", "entry_points", type(q).__name__, name), "%s of %s gives %r but get_sql(%s context) gives %r" % (name, type(q).__name__, text, cls, sql)))
             break
+    if case["name"] == "create_default_interval" and not out:
+        # the interval literal of a column default follows the class's template like any other interval
+        toks = lex.lex(sql, cls)
+        i = next((k for k, t in enumerate(toks) if t.kind == "word" and t.value == "INTERVAL" and k > 0 and toks[k - 1].kind == "word" and toks[k - 1].value == "DEFAULT"), None)
+        pred, want = expected_form(cls, "interval", False, None)
+        j = i
+        while j is not None and j < len(toks) and not (toks[j].kind == "punct" and toks[j].text in (")", ",")):
+            j += 1
+        if i is None or not pred(toks[i:j]):
+            out.append((mksig("ddl", cls, "interval_default_form"), "column default in %r: expected %s" % (sql, want)))
     qc = "`" if cls == "mysql" else '"'
     for text in [sql] + list(forms.values()):
         bad = [t for t in lex.lex(text, cls) if t.kind == "qid" and qc not in t.flags]
